@@ -92,6 +92,8 @@ def varref(rep, tier, seed):
         car = c["carrier"]
         if car == "var":
             xml = f"<svg><var {defs(1)}/>{probe}</svg>"
+        elif car == "var+defaults":
+            xml = f'<svg><defaults><_ b="99" ba="98" b1="97" _="n"/></defaults><var {defs(1)}/>{probe}</svg>'
         elif car == "g-attrs":
             xml = f"<svg><g {defs(1)}>{probe}</g></svg>"
         elif car == "reuse-attrs":
